@@ -140,5 +140,9 @@ func Rotations(w *wal.WAL) (int64, int64, int64) {
 	return r.triggered.Load(), r.finished.Load(), r.exited.Load()
 }
 
+// Track creates the bookkeeping for w (done by drv when it opens a WAL), so that
+// rotate.done / rotate.exit are counted even if no rotation was ever triggered.
+func Track(w *wal.WAL) { rotOf(w) }
+
 // Forget drops the bookkeeping for w.
 func Forget(w *wal.WAL) { rots.Delete(w) }
